@@ -20,6 +20,10 @@ var c05Alphabet = []string{
 var dontCareTokens = []string{"eCos-2.0-only", "eCos-2.0-or-later", "Bison-exception-2.2-only", "Bison-exception-2.2-or-later"}
 
 var c05Structural = []string{"MIT", "Apache-2.0-or-later", "LicenseRef-x", "(", ")", "AND", "OR", "+"}
+
+// identifiers whose name is an operator keyword (a parser that looks at a token's text but not its kind)
+var c05KeywordNames = []string{"MIT", "LicenseRef-OR", "LicenseRef-AND", "LicenseRef-WITH", "DocumentRef-OR", ":", "OR", "AND", "WITH", "Bison-exception-2.2", "(", ")"}
+
 var c05WithAlphabet = []string{"MIT", "Apache-2.0-or-later", "GPL-2.0", "WITH", "Bison-exception-2.2", "+", "(", ")", "AND"}
 
 func toks(texts []string) []Tok {
@@ -155,12 +159,14 @@ func c05Run(c *Ctx) {
 	if c.Thorough() {
 		sweeps = []sweep{
 			{"full", full, 6, []string{"loose", "tight"}, 3},
+			{"keyword-names", c05KeywordNames, 6, []string{"loose", "tight"}, 0},
 			{"structural", c05Structural, 9, []string{"loose", "tight"}, 0},
 			{"with", c05WithAlphabet, 8, []string{"loose", "tight"}, 0},
 		}
 	} else {
 		sweeps = []sweep{
 			{"full", full, 5, []string{"loose", "tight"}, 2},
+			{"keyword-names", c05KeywordNames, 5, []string{"loose"}, 0},
 			{"structural", c05Structural, 7, []string{"loose", "tight"}, 0},
 			{"with", c05WithAlphabet, 6, []string{"loose", "tight"}, 0},
 		}
@@ -357,6 +363,8 @@ func c05AllIDs(c *Ctx) {
 		try(id, "+", "WITH", "Bison-exception-2.2")
 		try(id+"-only", "WITH", "Bison-exception-2.2")
 		try("MIT", "WITH", id)
+		try("MIT", "WITH", "Bison-exception-2.2", "AND", id, "WITH", "Bison-exception-2.2")
+		try(id, "WITH", "Bison-exception-2.2", "OR", id, "+")
 	}
 	for _, e := range t.Exceptions {
 		try("MIT", "WITH", e)
